@@ -261,6 +261,110 @@ def judge_loop(case, obs):
     return bad
 
 
+# ----------------------------------------------------------------------------- _make_dummy_subgraph
+def dummy_cases(ck, P):
+    """(key, argument types, result selection) — types from the property's pool (ranks 0-3, symbolic / None dims,
+    unknown shape, sequences, optionals); results = a selection of the arguments (so their types are known)."""
+    rng = ck.rng
+    pool = list(P.POOL) + list(getattr(P, "EXTRA_TYPES", []))
+    out = []
+    for n, m in [(0, 0), (0, 1), (1, 1), (3, 2), (2, 5), (11, 11), (12, 13), (101, 3), (5, 102)]:
+        tys = [pool[(i * 3 + n) % len(pool)] for i in range(n)]
+        out.append({"kind": "dummy", "key": rng.choice(["body", "then_branch", "else_branch", "k"]), "tys": tys,
+                    "outs": [(j * 5 + 1) % max(1, n) if n else 0 for j in range(m)]})
+    for _ in range(ck.pick(15, 150)):
+        n = rng.choice([rng.randrange(0, 6), rng.randrange(0, 40)])
+        tys = [rng.choice(pool) for _ in range(n)]
+        out.append({"kind": "dummy", "key": rng.choice(["body", "then_branch", "else_branch", ""]), "tys": tys,
+                    "outs": [rng.randrange(0, max(1, n)) for _ in range(rng.randrange(0, n + 3))]})
+    return out
+
+
+def run_dummy_case(env, case):
+    import importlib
+
+    tys = [env.to_spox(d) for d in case["tys"]]
+    n = len(tys)
+    rec = []
+    scalar = {"t": 11, "s": []}
+
+    def fun(*args):
+        rec.append(args)
+        op = env.mods[sorted(env.mods, key=lambda q: int(q[1:]))[0]]
+        c = op.const(1.0)
+        return [args[o] if o < len(args) else c for o in case["outs"]]
+
+    obs = {"res_tys": [case["tys"][o] if o < n else scalar for o in case["outs"]]}
+    with warnings.catch_warnings():
+        warnings.simplefilter("ignore")
+        gr = env.graph.subgraph(tys, fun)
+    std = importlib.import_module("spox._standard")
+    ts = importlib.import_module("spox._type_system")
+    proto = std._make_dummy_subgraph(None, case["key"], gr)
+    obs["calls"] = len(rec)
+
+    def vis(xs):
+        return [[vi.name, env.from_spox(ts.Type._from_onnx(vi.type))] for vi in xs]
+
+    obs["name"] = proto.name
+    obs["inputs"], obs["outputs"], obs["valueInfos"] = vis(proto.input), vis(proto.output), vis(proto.value_info)
+    obs["nodes"] = [[nd.op_type, list(nd.input), list(nd.output)] for nd in proto.node]
+    obs["initializers"] = len(proto.initializer)
+    return obs
+
+
+def compare_dummy(case, obs, m):
+    if m is None or "error" in m:
+        return [f"driver: {m}"]
+    d = []
+    for k in ("name", "inputs", "outputs", "valueInfos"):
+        if obs[k] != m[k]:
+            d.append(f"{k}: {str(obs[k])[:160]} != model {str(m[k])[:160]}")
+    if obs["nodes"] != [["Identity", [a], [b]] for a, b in m["nodes"]]:
+        d.append(f"nodes: {str(obs['nodes'])[:160]} != model Identity{str(m['nodes'])[:160]}")
+    if obs["initializers"]:
+        d.append("the dummy has initializers")
+    return d
+
+
+def run_dummy(ck, env, P):
+    from harness import core
+
+    stats = {"cases": 0, "mismatches": 0, "max_args": 0, "max_results": 0}
+    cases = dummy_cases(ck, P)
+    try:
+        models = ck.driver().ask_many("C19", [{"dummy": {"key": c["key"], "types": c["tys"], "res": [
+            c["tys"][o] if o < len(c["tys"]) else {"t": 11, "s": []} for o in c["outs"]]}} for c in cases])
+    except Exception as e:  # noqa: BLE001
+        ck.broken("correspondence", "C19 driver (dummy subgraph)", str(e))
+        models = [None] * len(cases)
+    if len(models) != len(cases):
+        models = [None] * len(cases)
+    told = False
+    for case, m in zip(cases, models):
+        try:
+            obs = run_dummy_case(env, case)
+        except Exception as e:  # noqa: BLE001
+            if not told:
+                told = True
+                ck.broken("correspondence", "C19 facet of spox not observable", f"_make_dummy_subgraph: {type(e).__name__}: {e}\n{core.fmt_exc()[-300:]}")
+            continue
+        stats["cases"] += 1
+        stats["max_args"] = max(stats["max_args"], len(case["tys"]))
+        stats["max_results"] = max(stats["max_results"], len(case["outs"]))
+        ck.count(("dummy", len(case["tys"]), len(case["outs"])))
+        if obs["calls"] != 1:  # model-free: making what inference sees must not run the callback again
+            ck.failure(f"subgraph:names:recalled-after:dummy:count={obs['calls']}",
+                       f"callback invoked {obs['calls']} times after subgraph() + _make_dummy_subgraph", {"kind": "dummy", "case": case})
+        d = compare_dummy(case, obs, m)
+        if d:
+            stats["mismatches"] += 1
+            if stats["mismatches"] <= 3:
+                ck.broken("correspondence", "C19 model-vs-implementation (_make_dummy_subgraph)", f"key={case['key']!r} n={len(case['tys'])} outs={case['outs'][:10]} :: {d[:2]}")
+    ck.cov["dummy_subgraph"] = stats
+    return stats
+
+
 # ----------------------------------------------------------------------------- driver of the facet
 def run(ck, env):
     from harness import core
@@ -320,12 +424,21 @@ def run(ck, env):
         for key, what in judge_loop(case, obs):
             ck.failure(key, what, {"kind": "names-loop", "case": case})
     ck.cov["name_glue"] = stats
+    try:
+        import sys
+
+        run_dummy(ck, env, sys.modules["harness.props.c19"])
+    except Exception as e:  # noqa: BLE001
+        ck.broken("correspondence", "C19 dummy-subgraph facet", f"{type(e).__name__}: {e}\n{core.fmt_exc()[-300:]}")
     return stats
 
 
 def replay(env, case, key, known):
     """-> True iff the recorded failure still shows."""
-    if case.get("kind") == "names-loop":
+    if case.get("kind") == "dummy":
+        obs = run_dummy_case(env, case["case"])
+        found = [] if obs["calls"] == 1 else [(f"subgraph:names:recalled-after:dummy:count={obs['calls']}", "callback re-run")]
+    elif case.get("kind") == "names-loop":
         found = judge_loop(case["case"], run_loop_case(env, case["case"]))
     else:
         found = judge(case["case"], run_case(env, case["case"]))
